@@ -31,7 +31,8 @@ theorem GetRange_translation_refines_model (i c n : BitVec 32) :
   have hc := c.isLt
   have hn := n.isLt
   unfold Translated.GetRange Rpc.getRange
-  simp only [ge_iff_le, BitVec.le_def, BitVec.toNat_mul, BitVec.toNat_add, BitVec.toNat_setWidth, decide_eq_true_eq]
+  simp only [ge_iff_le, gt_iff_lt, BitVec.le_def, BitVec.lt_def, BitVec.toNat_mul, BitVec.toNat_add, BitVec.toNat_setWidth,
+    decide_eq_true_eq]
   generalize hp : i.toNat * c.toNat = p at *
   have e1 : i.toNat % 2 ^ 64 = i.toNat := Nat.mod_eq_of_lt (by omega)
   have e2 : c.toNat % 2 ^ 64 = c.toNat := Nat.mod_eq_of_lt (by omega)
